@@ -419,13 +419,13 @@ def r4_symbol_table_read_only(chk, rule='C12.R4'):
 ORDER_INSENSITIVE = {
     ('pysmi/lexer/smi.py', 'SmiV2Lexer', 'list(set(...))'):
         'token *names* handed to ply, which treats them as a set of terminals',
-    ('pysmi/lexer/smi.py', 'SupportSmiV1Keywords.tokens', 'list(set(tokens))'):
+    ('pysmi/lexer/smi.py', 'SupportSmiV1Keywords.tokens', 'list(set($t))'):
         'token names handed to ply as a set of terminals',
-    ('pysmi/codegen/symtable.py', 'SymtableCodeGen.genImports', 'for symbol in set(imports[module])'):
+    ('pysmi/codegen/symtable.py', 'SymtableCodeGen.genImports', 'for $s in set(imports[$m])'):
         'feeds only self._importMap.update() with a loop-invariant module value: a mapping, never iterated',
     ('pysmi/codegen/symtable.py', 'SymtableCodeGen.genCode', 'list(self._rows)'):
         '_symtable_rows is only membership-tested by IntermediateCodeGen.genRow',
-    ('pysmi/codegen/jsondoc.py', 'JsonCodeGen.genIndex', 'for object_oid in objects_oids'):
+    ('pysmi/codegen/jsondoc.py', 'JsonCodeGen.genIndex', 'for $o in $oo'):
         'builds a dict of lists; order() sorts every dict key and list before the dump, and the prefix compaction '
         'compares only entries of different depth',
 }
@@ -534,9 +534,11 @@ def r5_determinism(chk):
                     continue
                 n_sites += 1
                 key = (rel, qn, txt)
-                exempt = ORDER_INSENSITIVE.get(key)
-                if exempt:
-                    used.add(key)
+                exempt = None
+                for (r_, q_, pat), why in ORDER_INSENSITIVE.items():
+                    if r_ == rel and q_ == qn and common.pmatch(txt, pat) is not None:
+                        exempt = why
+                        used.add((r_, q_, pat))
                 chk.ob('C12.R5', '%s:%s/%s' % (rel, qn, txt), bool(exempt), where(mod, node),
                        'iteration order of a set reaches a sequence/loop here; with string elements it depends on '
                        'PYTHONHASHSEED' if not exempt else 'audited: ' + exempt)
